@@ -6,6 +6,7 @@ import (
 	"fmt"
 	"hash/fnv"
 	"sort"
+	"strings"
 
 	"verif/internal/xgen"
 )
@@ -108,6 +109,9 @@ func (c *Case) GShared(key string, n int64) *xgen.G {
 }
 
 func (c *Case) Violation(kind string, detail map[string]interface{}) {
+	if strings.Contains(kind, "NON-TERMINATION") {
+		c.Rep.Counters["nonterminating_evaluations"]++ // each one costs a full op budget: the worker stops after three
+	}
 	c.nviol++
 	c.Rep.NViol++
 	if len(c.Rep.Violations) < maxViolations {
